@@ -2,6 +2,7 @@ package main
 
 import (
 	"go/token"
+	"go/types"
 	"strings"
 
 	"golang.org/x/tools/go/ssa"
@@ -66,6 +67,38 @@ func checkC17(c *Ctx) {
 			ok := len(callsIn(fn, false, func(cc *ssa.CallCommon) bool { return cc.StaticCallee() != nil && cc.StaticCallee().Name() == d.must })) > 0
 			c.Check(ok, "C17.2", "Tree."+d.fn+" derives from "+d.must, p.FuncPos(fn), "no independent layout computation", d.fn+" does not use "+d.must)
 		}
+	}
+
+	// C17.1b the position table is never written through a slice that aliases it (ChildrenOf, ReplicaChildren and PeersOf
+	// hand out sub-slices of treePosToID with spare capacity: an append or element store through them rewrites other positions)
+	c17NoAliasWrite(c)
+	// C17.2b queries about a given replica use that replica, not the tree's own id
+	for _, q := range []string{"IsRoot", "ChildrenOf", "heightOf"} {
+		fn := p.Method("internal/tree", "Tree", q)
+		if fn == nil {
+			c.Unresolved("C17.2", "Tree."+q, "anchor missing")
+			continue
+		}
+		k := NewKeyer(p, fn)
+		n, okArg := 0, true
+		var visit func(f *ssa.Function, argKeyOK func(string) bool, depth int)
+		visit = func(f *ssa.Function, argKeyOK func(string) bool, depth int) {}
+		_ = visit
+		eachInstr(fn, func(in ssa.Instruction) {
+			call, isCall := in.(*ssa.Call)
+			if !isCall || call.Call.StaticCallee() == nil {
+				return
+			}
+			switch call.Call.StaticCallee().Name() {
+			case "replicaPosition", "IsRoot":
+				n++
+				if k.Key(call.Call.Args[1]) != "p1" {
+					okArg = false
+				}
+			}
+		})
+		c.Check(n > 0 && okArg, "C17.2", "Tree."+q+": answers for the replica it is asked about", p.FuncPos(fn),
+			"every position look-up in it uses the replicaID parameter", "a position look-up uses something other than the replicaID parameter (e.g. the tree's own id): different replicas' views of the tree disagree")
 	}
 
 	// C17.3 guards
@@ -194,4 +227,121 @@ func checkC17(c *Ctx) {
 			"parentPos = "+got+"; for c in [p*B+1, p*B+B] this is p (0 <= c-1-p*B < B), and conversely c lies in the child range of (c-1) div B: exactly one parent, listed among that parent's children only",
 			"parent expression is "+got+", root test before division: "+boolStr(rootOK))
 	}
+}
+
+// c17NoAliasWrite: values aliasing Tree.treePosToID (loads of the field, sub-slices, results of module functions
+// that return such values) are never appended to, stored through, sorted or used as a copy destination.
+func c17NoAliasWrite(c *Ctx) {
+	p := c.P
+	fv := p.Field("internal/tree", "Tree", "treePosToID")
+	if fv == nil {
+		c.Unresolved("C17.1", "Tree.treePosToID aliases", "field missing")
+		return
+	}
+	// functions returning an alias (fixpoint)
+	returnsAlias := map[*ssa.Function]bool{}
+	var aliasIn func(fn *ssa.Function) map[ssa.Value]bool
+	aliasIn = func(fn *ssa.Function) map[ssa.Value]bool {
+		al := map[ssa.Value]bool{}
+		for changed := true; changed; {
+			changed = false
+			eachInstr(fn, func(in ssa.Instruction) {
+				v, ok := in.(ssa.Value)
+				if !ok || al[v] {
+					return
+				}
+				is := false
+				switch x := in.(type) {
+				case *ssa.UnOp:
+					if fa, ok := x.X.(*ssa.FieldAddr); ok && fieldVar(fa.X.Type(), fa.Field) == fv {
+						is = true
+					}
+				case *ssa.Field:
+					if fieldVar(x.X.Type(), x.Field) == fv {
+						is = true
+					}
+				case *ssa.Slice:
+					is = al[x.X]
+				case *ssa.Phi:
+					for _, e := range x.Edges {
+						if al[e] {
+							is = true
+						}
+					}
+				case *ssa.Call:
+					if cal := x.Call.StaticCallee(); cal != nil && returnsAlias[cal] {
+						is = true
+					}
+				case *ssa.ChangeType:
+					is = al[x.X]
+				}
+				if is {
+					al[v] = true
+					changed = true
+				}
+			})
+		}
+		return al
+	}
+	for changed := true; changed; {
+		changed = false
+		for _, fn := range p.ModFuncs {
+			if returnsAlias[fn] || fn.Signature.Results().Len() == 0 {
+				continue
+			}
+			if _, isSlice := fn.Signature.Results().At(0).Type().Underlying().(*types.Slice); !isSlice {
+				continue
+			}
+			al := aliasIn(fn)
+			for _, r := range returnsOf(fn) {
+				if len(r.Results) > 0 && al[r.Results[0]] {
+					returnsAlias[fn] = true
+					changed = true
+				}
+			}
+		}
+	}
+	var bad []string
+	nUses := 0
+	for _, fn := range p.ModFuncs {
+		al := aliasIn(fn)
+		if len(al) == 0 {
+			continue
+		}
+		eachInstr(fn, func(in ssa.Instruction) {
+			switch x := in.(type) {
+			case *ssa.Call:
+				if b, ok := x.Call.Value.(*ssa.Builtin); ok {
+					switch b.Name() {
+					case "append":
+						nUses++
+						if al[x.Call.Args[0]] {
+							bad = append(bad, "append to an alias of the position table at "+p.InstrPos(in)+" in "+shortName(fn))
+						}
+					case "copy":
+						if al[x.Call.Args[0]] {
+							bad = append(bad, "copy into an alias of the position table at "+p.InstrPos(in)+" in "+shortName(fn))
+						}
+					}
+					return
+				}
+				if cal := x.Call.StaticCallee(); cal != nil && (strings.HasPrefix(cal.String(), "slices.Sort") || strings.HasPrefix(cal.String(), "slices.Reverse") || strings.HasPrefix(cal.String(), "sort.")) {
+					if len(x.Call.Args) > 0 && al[x.Call.Args[0]] {
+						bad = append(bad, "in-place reordering of an alias of the position table at "+p.InstrPos(in)+" in "+shortName(fn))
+					}
+				}
+			case *ssa.Store:
+				if ia, ok := x.Addr.(*ssa.IndexAddr); ok && al[ia.X] {
+					bad = append(bad, "element store through an alias of the position table at "+p.InstrPos(in)+" in "+shortName(fn))
+				}
+			}
+		})
+	}
+	var ra []string
+	for fn := range returnsAlias {
+		ra = append(ra, shortName(fn))
+	}
+	sortStrings(ra)
+	c.Check(len(bad) == 0 && len(ra) > 0, "C17.1", "Tree.treePosToID is never written through an alias", p.Pos(fv.Pos()),
+		"functions handing out sub-slices of the table: {"+join(ra)+"}; none of their results (nor the field itself) is appended to, stored through, reordered or copied into", join(bad))
 }
